@@ -512,22 +512,41 @@ func c07exec(c *h.Ctx, cs *h.Case) {
 			// through the listed instances
 			n, _ := strconv.Atoi(tk[2])
 			var wg sync.WaitGroup
-			for w := 0; w < 6; w++ {
+			var next, writersLeft int64 = 0, 4
+			// n times an instance is listed and unlisted again: by a peer's message for a protocol the server
+			// does not have (even turns), by a local start and finish of an instance (odd turns)
+			for w := 0; w < 4; w++ {
 				wg.Add(1)
-				go func(w int) {
+				go func() {
 					defer wg.Done()
-					for i := w / 2; i < n; i += 3 {
-						if w%2 == 0 {
+					defer atomic.AddInt64(&writersLeft, -1)
+					for {
+						i := int(atomic.AddInt64(&next, 1)) - 1
+						if i >= n {
+							return
+						}
+						if i%2 == 0 {
 							to := e.toks["badprotoK"].Clone()
 							to.RoundID = onet.RoundID(uuid.New())
 							buf, _ := network.Marshal(&fix.M3{V: 1})
 							pm := &onet.ProtocolMsg{From: e.member(e.trees["K"], to.RoundID), To: to, MsgSlice: buf, MsgType: network.MessageType(&fix.M3{})}
 							e.ov.Process(&network.Envelope{ServerIdentity: e.cl.SI(0), MsgType: onet.ProtocolMsgID, Msg: pm})
 						} else {
-							e.ov.Process(&network.Envelope{ServerIdentity: e.cl.SI(0), MsgType: onet.SendTreeMsgID, Msg: e.tm("R", "roK", "empty")})
+							e.ov.NewTreeNodeInstanceFromProtoName(e.trees["K"], fix.ProtoName).Done()
 						}
 					}
-				}(w)
+				}()
+			}
+			// meanwhile the peer keeps sending the deprecated tree message for the requested tree (refused every
+			// time: the description has no nodes); it changes nothing, so its number does not matter
+			for w := 0; w < 4; w++ {
+				wg.Add(1)
+				go func() {
+					defer wg.Done()
+					for atomic.LoadInt64(&writersLeft) > 0 {
+						e.ov.Process(&network.Envelope{ServerIdentity: e.cl.SI(0), MsgType: onet.SendTreeMsgID, Msg: e.tm("R", "roK", "empty")})
+					}
+				}()
 			}
 			wg.Wait()
 		case (len(tk) == 3 || len(tk) == 4) && tk[1] == "config":
